@@ -178,10 +178,19 @@ def gen_donor(rng, root, parent, name, kind, want_bad):
                 local.append(path + ([[name, i]] if kind == 'rep' else [[name]]))
     r = rng.random()
     if want_bad:
+        if local and r < 0.25:
+            # attached nodes that start or end their store (detach must look at both ends)
+            st = root.token_store
+            edge = [p for p in local if (resolve(root, p).first_token is st.get_first()) !=
+                    (resolve(root, p).last_token is st.get_last())]
+            if edge:
+                return {'k': 'attached_doc', 'path': rng.choice(edge)}
         if local and r < 0.5:
             return {'k': 'attached_doc', 'path': rng.choice(local)}
-        if refs and r < 0.8:
+        if refs and r < 0.65:
             return {'k': 'attached_pool', 'ref': rng.choice(refs)}
+        if refs and r < 0.85:
+            return {'k': 'child_of_copy', 'ref': rng.choice(refs)}
         if refs:
             return {'k': 'child_span', 'ref': rng.choice(refs)}
         return None
@@ -236,6 +245,12 @@ def make_donor(root, d, made):
                     if c.first_token is st.get_first() and c.last_token is st.get_last():
                         return c, parent
         return parent, parent          # no such child: a plain free copy
+    if k == 'child_of_copy':
+        # a child of a free-standing private copy of its parent: attached (it usually starts or ends the store)
+        k0, path = d['ref']
+        roots, _ = pool()
+        parent = copy.deepcopy(resolve(roots[k0], path[:-1]))
+        return resolve(parent, path[-1:]), parent
     if k == 'dup':
         return made[d['of']]
     raise ValueError(k)
@@ -355,6 +370,7 @@ def call(root, op, want_corr=True):
         except Exception:
             pass
     dstores0 = [(donor_store(v), [t.raw_text for t in donor_store(v)]) for v in values]
+    spans = [bool(st) and v.first_token is st[0] and v.last_token is st[-1] for v, (st, _) in zip(values, dstores0)]
     dump0 = json.dumps([dump(root)] + [dump(r) for r in droots], default=str)
     print0 = gen_docs.print_model(root)
     # ---- correspondence: state before
@@ -453,8 +469,10 @@ def call(root, op, want_corr=True):
     # ---- state after
     T1 = list(store)
     rec = {'exn': type(exn).__name__ if exn else None, 'findings': findings, 'case': None,
-           'bad_donor': any(d['k'] in ('attached_doc', 'attached_pool') for d in op.get('donors', [])),
-           'child_span': any(d['k'] in ('child_span', 'child_span_doc') and v is not r for d, (v, r) in zip(op.get('donors', []), made))}
+           'bad_donor': any(d['k'] in ('attached_doc', 'attached_pool') or (d['k'] == 'child_of_copy' and not sp)
+                            for d, sp in zip(op.get('donors', []), spans)),
+           'child_span': any(d['k'] in ('child_span', 'child_span_doc', 'child_of_copy') and v is not r and sp
+                             for d, (v, r), sp in zip(op.get('donors', []), made, spans))}
     if case is not None:
         try:
             pos1 = {id(t): i for i, t in enumerate(T1)}
@@ -926,11 +944,11 @@ def run(ctx: common.Ctx):
         'mutators; they are watched by the monitors, not modelled here (C09/C10 model them)',
         'CPython slice/range semantics as modelled in PySeq.v (validated by C10 against CPython)']
     ctx.require_coq(['properties/C03'], extra_targets=['RepeatedRun'])
-    run_slots(ctx, ('C03',), ctx.scale(200, 1500), 8)
+    run_slots(ctx, ('C03',), ctx.scale(150, 1500), 8)
 
 
 def search(ctx: common.Ctx):
-    run_slots(ctx, ('C03',), ctx.scale(200, 1500), 8)
+    run_slots(ctx, ('C03',), ctx.scale(50, 300), 8)
 
 
 def replay(ctx, path, props=('C03',)):
